@@ -90,7 +90,7 @@ func VerifDump(s *PfcpServer) string {
 		sort.Ints(ks)
 		for _, k := range ks {
 			u := x.URRIDs[uint32(k)]
-			ur = append(ur, fmt.Sprintf("%d/%d/%d/%d/%d/%d/%d", k, u.SEQN, u.refPdrNum, b2i(u.removed), b2i(u.DURAT), b2i(u.VOLUM), b2i(u.MNOP)))
+			ur = append(ur, fmt.Sprintf("%d/%d/%d/%d/%d/%d/%d", k, u.SEQN, u.refPdrNum, b2i(verifRemoved(u)), b2i(u.DURAT), b2i(u.VOLUM), b2i(u.MNOP)))
 		}
 		ks = nil
 		for k := range x.BARIDs {
@@ -252,4 +252,17 @@ func verifLen(q interface{}) int {
 		return int(m.Call(nil)[0].Int())
 	}
 	return -1
+}
+
+// verifRemoved: the removed mark of a URR, if the structure carries one (read by name, so that the dump does not depend on
+// how the mark is represented)
+func verifRemoved(u *URRInfo) bool {
+	if u == nil {
+		return false
+	}
+	f := reflect.ValueOf(u).Elem().FieldByName("removed")
+	if f.IsValid() && f.Kind() == reflect.Bool {
+		return f.Bool()
+	}
+	return false
 }
